@@ -1,5 +1,4 @@
 """C07 - masking and unpacking of file data follow the netCDF conventions (DESIGN.md section 4, C07)."""
-import itertools
 import json
 import os
 
@@ -256,17 +255,17 @@ def build_cases(chk):
     T = chk.tier == "thorough"
     cases = [dict(c) for c in CORPUS]
     scale = float(os.environ.get("C07_SCALE", "1"))
-    n_field = int((4200 if T else 520) * scale)
-    n_aux = int((600 if T else 90) * scale)
-    n_mal = int((500 if T else 60) * scale)
+    n_field = int((2000 if T else 360) * scale)
+    n_aux = int((300 if T else 60) * scale)
+    n_mal = int((200 if T else 40) * scale)
     for k in range(n_field):
         cases.append(gen_case(rng, DTYPES[k % len(DTYPES)]))
     for k in range(n_aux):
         cases.append(gen_case(rng, DTYPES[k % len(DTYPES)], fam="aux"))
     # every subset of the eight attributes
     names = ["_FillValue", "missing_value", "valid_min", "valid_max", "valid_range", "scale_factor", "add_offset", "_Unsigned"]
-    for dt in (DTYPES if T else [rng.choice(INTS), rng.choice(FLOATS)]):
-        for bits in range(0, 256, 1 if T or scale >= 1 else 8):
+    for n, dt in enumerate(DTYPES if T else [rng.choice(INTS), rng.choice(FLOATS)]):
+        for bits in range(n % 2 if T else 0, 256, (2 if T else (1 if n == 0 else 4)) if scale >= 1 else 8):
             sub = {nm for j, nm in enumerate(names) if bits >> j & 1}
             cases.append(gen_case(rng, dt, fam="all-subsets", subset=sub))
     for k in range(n_mal):
@@ -489,8 +488,8 @@ def run(chk, model_ok):
     nontrivial = set()
 
     def fail(c, sig, what, expected, observed, cfg=None):
-        explained.add((c["i"], cfg))
-        explained.add((c["i"], None))
+        # a property failure explains a model disagreement on the same observation only
+        explained.add((c["i"], cfg, "apply" if sig.startswith("apply-masking") else "read"))
         chk.fail("property", sig, what, {"input": {k: v for k, v in c.items() if k != "i"}, "config": cfg,
                                          "expected": expected, "observed": observed})
 
@@ -549,7 +548,7 @@ def run(chk, model_ok):
             if w is None:
                 continue
             if "err" in w:
-                if (c["i"], key) not in explained:
+                if (c["i"], key, "read") not in explained:
                     sig = "read-raises"
                     if vector_pack(c):
                         sig = "vector-scale-offset-read-raises"
@@ -657,7 +656,7 @@ def run(chk, model_ok):
             shown = 0
             for i in bad:
                 c, key, w = mp[i]
-                if (c["i"], key) in explained or (c["i"], None) in explained:
+                if (c["i"], key, "apply" if fn == "check_apply" else "read") in explained:
                     continue
                 shown += 1
                 if shown > 40:
